@@ -4,6 +4,7 @@ package interp
 
 import (
 	"fmt"
+	"os"
 	"go/types"
 	"math"
 	"sort"
@@ -160,7 +161,24 @@ func (i *interpreter) check(extra *term, wantModel bool) (satResult, map[string]
 
 // checkStrong is check with the fallback portfolio on unknown (used for obligations).
 func (i *interpreter) checkStrong(extra *term, wantModel bool) (satResult, map[string]uint64) {
+	// floating-point obligations are usually decided faster by cvc5: give the
+	// primary solver a short slice first
+	fp := extra != nil && i.hasFP(extra)
+	if !fp {
+		for _, t := range i.path.pc {
+			if i.hasFP(t) {
+				fp = true
+				break
+			}
+		}
+	}
+	if fp {
+		i.slv.setTimeout(i.cfg.SolverTimeoutMs / 5)
+	}
 	res, model := i.check(extra, wantModel)
+	if fp {
+		i.slv.setTimeout(i.cfg.SolverTimeoutMs)
+	}
 	if res == resSat || res == resUnsat {
 		return res, model
 	}
@@ -178,7 +196,11 @@ func (i *interpreter) checkStrong(extra *term, wantModel bool) (satResult, map[s
 	defer func() { i.stats.NanosFB += int64(time.Since(t0)) }()
 	for _, cmd := range fallbackCmds(i.cfg.FallbackTimeoutMs) {
 		i.stats.Fallbacks++
-		r, m, _ := oneShot(cmd, i.tc, terms, mv, time.Duration(i.cfg.FallbackTimeoutMs)*time.Millisecond)
+		r, m, q := oneShot(cmd, i.tc, terms, mv, time.Duration(i.cfg.FallbackTimeoutMs)*time.Millisecond)
+		if d := os.Getenv("VERIF_DUMP_SMT"); d != "" {
+			i.stats.Fallbacks++
+			os.WriteFile(fmt.Sprintf("%s/q%d-%s.smt2", d, i.stats.Fallbacks, cmd[0]), []byte(q), 0o644)
+		}
 		if r == resSat || r == resUnsat {
 			return r, m
 		}
@@ -460,4 +482,25 @@ func sortedKeys[V any](m map[string]V) []string {
 	}
 	sort.Strings(ks)
 	return ks
+}
+
+// hasFP reports whether a term contains floating-point operations (memoised).
+func (i *interpreter) hasFP(t *term) bool {
+	if i.fpMemo == nil {
+		i.fpMemo = map[*term]bool{}
+	}
+	if v, ok := i.fpMemo[t]; ok {
+		return v
+	}
+	r := t.s.isFP()
+	if !r {
+		for _, a := range t.args {
+			if i.hasFP(a) {
+				r = true
+				break
+			}
+		}
+	}
+	i.fpMemo[t] = r
+	return r
 }
